@@ -24,8 +24,16 @@ def _rec_cls():
     from skactiveml.pool import UncertaintySampling
 
     class Rec(UncertaintySampling):
+        # utility_transform: (scale, shift) applied to the utilities the wrapped strategy reports (same ranking, other sign /
+        # magnitude - expected-error reductions are negative, distances large)
+        def __init__(self, method="least_confident", cost_matrix=None, missing_label=np.nan, random_state=None, utility_scale=1.0, utility_shift=0.0):
+            super().__init__(method=method, cost_matrix=cost_matrix, missing_label=missing_label, random_state=random_state)
+            self.utility_scale, self.utility_shift = utility_scale, utility_shift
+
         def query(self, X, y, *a, **kw):
             out = super().query(X, y, *a, **kw)
+            if isinstance(out, tuple) and (self.utility_scale, self.utility_shift) != (1.0, 0.0):
+                out = (out[0], out[1] * self.utility_scale + self.utility_shift)
             RECORD.append({"X": np.array(X), "y": np.array(y), "candidates": kw.get("candidates"), "batch_size": kw.get("batch_size"),
                            "out": out})
             return out
@@ -80,11 +88,14 @@ def run(ctx):
     # the wrapper's own transform: order preservation + forced sample on top (direct oracle)
     for _ in range(200 if ctx.is_quick else 2000):
         b, n = int(rng.integers(1, 4)), int(rng.integers(1, 7))
-        cu = rng.integers(0, 4, size=(b, n)).astype(float)
+        # utilities of every sign and magnitude (expected-error reductions are negative, distances large, probabilities tiny)
+        scale, shift = [(1.0, 0.0), (1.0, -7.0), (1e-3, 0.0), (1e6, -2e6), (0.5, -1.5)][int(rng.integers(0, 5))]
+        cu = rng.integers(0, 4, size=(b, n)).astype(float) * scale + shift
         cu[rng.random((b, n)) < 0.25] = np.nan
         sidx = [int(rng.integers(n)) for _ in range(b)]
         for i in range(b):
-            cu[i, sidx[i]] = abs(cu[i, sidx[i]]) if not np.isnan(cu[i, sidx[i]]) else 1.0
+            if np.isnan(cu[i, sidx[i]]):
+                cu[i, sidx[i]] = shift + scale
         A = np.ones((n, 1), dtype=bool)
         orig = cu.copy()
         _, ut = SingleAnnotatorWrapper._get_order_preserving_s_query(A, cu.copy(), np.zeros((b, n, 1)), np.array(sidx))
@@ -245,7 +256,9 @@ def run(ctx):
         cand = np.arange(n)
         bs = int(rng.integers(1, n * napp + 1))
         RECORD.clear()
-        saw = SingleAnnotatorWrapper(Rec(random_state=seed), random_state=seed)
+        sc_, sh_ = [(1.0, 0.0), (1.0, -7.0), (1e4, -3e4), (1e-3, 0.0)][h % 4]
+        inner = Rec(random_state=seed, utility_scale=sc_, utility_shift=sh_)
+        saw = SingleAnnotatorWrapper(inner, random_state=seed)
         # annotator performances: not given / per annotator / per (candidate, annotator); accuracies in [0, 1), scores with negative
         # entries (kappa-like), large integers, constant
         pstyle = str(rng.choice(["none", "none", "unit", "signed", "signed_rows", "large", "constant"]))
